@@ -14,7 +14,9 @@
    What is proved of it ([C01_pure_expressions_partial] and the theorems
    around it; ExprSem.v, ExprVM.v, ExprCorrect.v, ExprTop.v): for every PURE
    expression — int/float/bool/string literals, global variables, every binary
-   operator, unary - # ! ~, nested to any depth — the code the compiler model
+   operator, unary - # ! ~, array literals (constant prefix in the data
+   segment, the other elements appended by ARR), indexing a[i] and slicing
+   a[f:t], nested to any depth — the code the compiler model
    emits, in every context (any operand selector, any combination of the
    flags Discard/ForbidTemp/AcceptTemp/Returning/OpDepth/...), run by the VM
    model from any state, leaves exactly the value the definitional semantics
@@ -31,8 +33,7 @@
    every statement gives Sem's value or error class, binds exactly Sem's
    globals, writes nothing and leaves the machine ready — after a runtime
    error too ([C01_simple_sessions_partial]).  Missing for the full statement:
-   calls, control flow, generators, locals and closures, arrays and indexing,
-   output; g = 1 + g (equal to g + 1 only by commutativity of IEEE addition,
+   calls, control flow, generators, locals and closures, output; g = 1 + g (equal to g + 1 only by commutativity of IEEE addition,
    not proved here). *)
 Require Import Calc.Base Calc.Bytecode Calc.Value Calc.FloatText Calc.Ast Calc.Resolve Calc.Compile
         Calc.VM Calc.Sem Calc.Session Calc.CorrSession Calc.SemSession Calc.SemProofs
@@ -172,7 +173,15 @@ Definition demo_session : list node :=
    NAssign (NName "y") (NBin "/" (NName "x") (NInt 0));
    NAssign (NName "s") (NBin "+" (NStr "a") (NStr "b"));
    NUn "#" (NName "s");
-   NName "x"].
+   NName "x";
+   (* the two witnesses of the property text: a[i+1] + 1 and [1+2] + [3] *)
+   NAssign (NName "a") (NList [NInt 5; NInt 6; NInt 7]);
+   NAssign (NName "i") (NInt 0);
+   NBin "+" (NIndexAt (NName "a") (NBin "+" (NName "i") (NInt 1))) (NInt 1);
+   NBin "+" (NList [NBin "+" (NInt 1) (NInt 2)]) (NList [NInt 3]);
+   NIndexFromTo (NName "a") (NInt 1) (NUn "#" (NName "a"));
+   NList [NName "x"; NList [NName "s"; NInt 2]; NIndexAt (NName "s") (NInt 1)];
+   NIndexAt (NName "a") (NInt 7)].
 
 Fixpoint run_all (mc : machine) (ts : list node) : list tree_result :=
   match ts with
@@ -188,7 +197,10 @@ Example C01_demo_session_is_covered :
   Forall (fun t => simple t = true /\ small t) demo_session /\
   map brief (run_all mc_after_first demo_session) =
   [Some (Ok (VInt 5)); Some (Ok (VInt 6)); Some (Ok (VInt 35)); Some (Fail ErrNil); Some (Fail ErrZeroDiv);
-   Some (Ok (VStr "ab")); Some (Ok (VInt 2)); Some (Ok (VInt 6))].
+   Some (Ok (VStr "ab")); Some (Ok (VInt 2)); Some (Ok (VInt 6));
+   Some (Ok (VArr [VInt 5; VInt 6; VInt 7])); Some (Ok (VInt 0)); Some (Ok (VInt 7));
+   Some (Ok (VArr [VInt 3; VInt 3])); Some (Ok (VArr [VInt 6; VInt 7]));
+   Some (Ok (VArr [VInt 6; VArr [VStr "ab"; VInt 2]; VStr "b"])); Some (Fail ErrIndex)].
 Proof.
   split; [|split].
   - destruct C01_pure_premises_hold as [[c [m H]] _].
